@@ -75,6 +75,7 @@ impl RandomProp for DestFaults {
                 geoms: vec![g],
                 fins: vec![0, fin],
                 shx_samples: 0,
+                bulk: false,
             })
         });
         let many = (prop_oneof![Just(vlib::model::Ty::Point), Just(vlib::model::Ty::PointZ), Just(vlib::model::Ty::Multipoint), Just(vlib::model::Ty::Polyline)], 520usize..1100, 0u8..2).prop_flat_map(|(ty, n, fin)| {
@@ -83,7 +84,7 @@ impl RandomProp for DestFaults {
                 let geoms: Vec<vlib::model::Geom> = (0..n).map(|i| pool[i % pool.len()].clone()).collect();
                 let mut fins = vec![0u8; n + 1];
                 fins[n] = fin;
-                Workload { ty, geoms, fins, shx_samples: 0 }
+                Workload { ty, geoms, fins, shx_samples: 0, bulk: false }
             })
         });
         (prop_oneof![60 => workload(4, 0), 1 => big.boxed(), 1 => many.boxed()], any::<bool>(), proptest::collection::vec(1usize..12, 1..6), prop_oneof![3 => Just(0u8), 1 => Just(1u8), 1 => Just(2u8), 1 => Just(3u8)], 0u8..vlib::io::FAULT_KINDS.len() as u8)
